@@ -40,6 +40,15 @@ type plan struct {
 	// accounting state after the block must also equal the one of a replica
 	// that was never restarted.
 	Restart bool
+	// Dedup (graph plans): a history is extended only if it is the first one (in
+	// breadth-first, alphabet order) that reaches its governance state
+	// (dedupKey: NEO balances and votes, candidates, voters count, deposits,
+	// blocked accounts). Every template of the next level is thus applied to
+	// every distinct governance state reached within the depth, once.
+	Dedup bool
+	// KeyDepth: the depth of the history is part of the state identity of a
+	// graph plan (plans whose behaviour depends on the height: deposit tills).
+	KeyDepth bool
 }
 
 func (p plan) famKey() string {
@@ -49,6 +58,9 @@ func (p plan) famKey() string {
 	}
 	if p.Restart {
 		k += "+restart"
+	}
+	if strings.HasPrefix(p.Name, "atoms/") {
+		k += "/" + p.Name
 	}
 	return k
 }
@@ -124,6 +136,7 @@ func plans(thorough bool) []plan {
 		plan{Name: "single/reelect/restart", Fam: famSingle, Prefix: []string{"vote1", "vote2for1", "drop1", "reelect1"}, Levels: rep(alphaReelect, 2), Restart: true},
 		plan{Name: "multi/pad1/restart", Fam: famMulti, Pad: 1, Levels: rep(alphaMultiDeep, 2), Restart: true},
 	)
+	ps = append(ps, atomPlans(thorough)...)
 	if !thorough {
 		return ps
 	}
@@ -168,10 +181,24 @@ type stats struct {
 	nodes    vk.Counter
 	full     *vk.Set // distinct (balances, votes, deposits) states incl. GAS
 	gov      *vk.Set // distinct NEO/vote/candidate/deposit states
+	perPlan  map[string]*planStat
+	classes  map[string]int            // what atom transitions did to the accounting state
+	effects  map[string]map[string]int // atom block -> effect on the accounting state -> times
+}
+
+// planStat counts one plan.
+type planStat struct {
+	Nodes     int `json:"blocks_executed"`
+	NotAppl   int `json:"not_applicable"`
+	States    int `json:"distinct_governance_states"`
+	Merged    int `json:"transitions_into_a_known_state"`
+	Histories int `json:"complete_histories"`
+	seen      map[string]bool
 }
 
 func newStats() *stats {
-	return &stats{faults: map[string]int{}, tx: map[string]map[string]int{}, notAppl: map[string]int{}, byInv: map[string]int{}, full: vk.NewSet(), gov: vk.NewSet()}
+	return &stats{faults: map[string]int{}, tx: map[string]map[string]int{}, notAppl: map[string]int{}, byInv: map[string]int{}, full: vk.NewSet(), gov: vk.NewSet(),
+		perPlan: map[string]*planStat{}, classes: map[string]int{}, effects: map[string]map[string]int{}}
 }
 
 func short(s string) string {
@@ -313,6 +340,9 @@ func (pr *planRun) setup() (ok bool, err error) {
 		}
 		t, ok := all[n]
 		if !ok {
+			t, ok = atomTemplate(n)
+		}
+		if !ok {
 			return fmt.Errorf("no template %q", n)
 		}
 		pr.idx[n] = len(tpls)
@@ -361,6 +391,36 @@ func (pr *planRun) setup() (ok bool, err error) {
 
 func (pr *planRun) histNames(h []int) []string { return pr.sc.Names(h) }
 
+// ps returns the plan's counters (caller holds st.mu).
+func (pr *planRun) ps() *planStat {
+	p := pr.st.perPlan[pr.p.Name]
+	if p == nil {
+		p = &planStat{seen: map[string]bool{}}
+		pr.st.perPlan[pr.p.Name] = p
+	}
+	return p
+}
+
+// fresh tells whether the state reached by h is new for the plan (graph
+// plans extend only from new states). Called sequentially in candidate order.
+func (pr *planRun) fresh(s *tokState, depth int) bool {
+	pr.st.mu.Lock()
+	defer pr.st.mu.Unlock()
+	p := pr.ps()
+	k := dedupKey(s)
+	if pr.p.KeyDepth {
+		k = fmt.Sprintf("%d|%s", depth, k)
+	}
+	k = short(k)
+	if p.seen[k] {
+		p.Merged++
+		return false
+	}
+	p.seen[k] = true
+	p.States = len(p.seen)
+	return true
+}
+
 // tnode is a node of the plan's history tree: the block that extends the
 // prefix and the decoded accounting state after it.
 type tnode struct {
@@ -385,6 +445,7 @@ func (pr *planRun) visit(h []int) (extend bool) {
 	notAppl := func(err error) bool {
 		pr.st.mu.Lock()
 		pr.st.notAppl[tplName]++
+		pr.ps().NotAppl++
 		pr.st.mu.Unlock()
 		if strings.Contains(err.Error(), "panic") {
 			fmt.Println("note:", pr.p.Name, pr.histNames(h), err)
@@ -456,6 +517,25 @@ func (pr *planRun) visit(h []int) (extend bool) {
 	pr.mu.Unlock()
 	pr.st.nodes.Inc()
 	pr.st.boundaryDone(after, ev, func(int) string { return tplName })
+	pr.st.mu.Lock()
+	pr.ps().Nodes++
+	if strings.HasPrefix(tplName, "a:") || strings.HasPrefix(tplName, "a2:") {
+		cs := classes(tplName, before, after)
+		for _, c := range cs {
+			pr.st.classes[c]++
+		}
+		if strings.HasPrefix(tplName, "a:") {
+			eff := strings.Join(effectsOnly(cs), "; ")
+			if eff == "" {
+				eff = "(no change of NEO accounts, votes, candidates, deposits, blocked set)"
+			}
+			if pr.st.effects[tplName] == nil {
+				pr.st.effects[tplName] = map[string]int{}
+			}
+			pr.st.effects[tplName][eff]++
+		}
+	}
+	pr.st.mu.Unlock()
 	hist := pr.histNames(h)
 	if pr.r != nil {
 		pr.r.Sample(map[string]any{"plan": pr.p.Name, "history": hist, "height": n.Height(), "transfer_events": ev.N, "execs": execStates(ev),
@@ -527,9 +607,26 @@ func execStates(ev *blockEvents) []string {
 
 // ---- the check -----------------------------------------------------------------------
 
+// onlyPlans is a development aid: VERIF_C05_ONLY=<substring> runs only the
+// plans whose name contains it (the evidence of such a run is partial).
+func onlyPlans(ps []plan) []plan {
+	f := os.Getenv("VERIF_C05_ONLY")
+	if f == "" {
+		return ps
+	}
+	fmt.Println("note: VERIF_C05_ONLY set, running only the plans matching", f)
+	var out []plan
+	for _, p := range ps {
+		if strings.Contains(p.Name, f) {
+			out = append(out, p)
+		}
+	}
+	return out
+}
+
 func TestCheck(t *testing.T) {
 	vk.UseT(t)
-	r := vk.Start("C05", "model_checking", 110*time.Second, 22*time.Minute)
+	r := vk.Start("C05", "model_checking", 150*time.Second, 22*time.Minute)
 	defer vk.CleanScratch()
 	if r.Replay != "" {
 		replay(r)
@@ -537,7 +634,7 @@ func TestCheck(t *testing.T) {
 	}
 	st := newStats()
 	var runs []*planRun
-	for _, p := range plans(r.Thorough()) {
+	for _, p := range onlyPlans(plans(r.Thorough())) {
 		pr := &planRun{p: p, r: r, st: st}
 		ok, err := pr.setup()
 		if err != nil {
@@ -567,6 +664,11 @@ func TestCheck(t *testing.T) {
 		}
 		if ok {
 			level = append(level, job{pr, append([]int{}, h...)})
+			start := pr.pre
+			if len(h) > 0 {
+				start = pr.get(h).state
+			}
+			pr.fresh(start, len(h))
 		}
 	}
 	// free levels, breadth first over all plans (shortest histories first)
@@ -576,6 +678,9 @@ func TestCheck(t *testing.T) {
 		for _, j := range level {
 			if d >= len(j.pr.p.Levels) {
 				histories++
+				st.mu.Lock()
+				j.pr.ps().Histories++
+				st.mu.Unlock()
 				continue
 			}
 			for _, nme := range j.pr.p.Levels[d] {
@@ -586,15 +691,26 @@ func TestCheck(t *testing.T) {
 		r.Parallel(len(cand), func(i int) { ok[i] = cand[i].pr.visit(cand[i].h) })
 		level = level[:0]
 		for i, c := range cand {
-			if ok[i] {
-				level = append(level, c)
+			if !ok[i] {
+				continue
 			}
+			if isNew := c.pr.fresh(c.pr.get(c.h).state, len(c.h)); c.pr.p.Dedup && !isNew {
+				continue
+			}
+			level = append(level, c)
+		}
+		if os.Getenv("VERIF_C05_ONLY") != "" {
+			st.mu.Lock()
+			for n, p := range st.perPlan {
+				fmt.Printf("note: level %d: %s blocks=%d states=%d\n", d+1, n, p.Nodes, p.States)
+			}
+			st.mu.Unlock()
 		}
 		if r.Expired() || r.TooMany() {
 			break
 		}
 	}
-	finish(r, st, histories, plans(r.Thorough()))
+	finish(r, st, histories, onlyPlans(plans(r.Thorough())))
 }
 
 func finish(r *vk.Run, st *stats, histories int, ps []plan) {
@@ -620,7 +736,7 @@ func finish(r *vk.Run, st *stats, histories int, ps []plan) {
 		for _, l := range p.Levels {
 			ls = append(ls, fmt.Sprint(len(l)))
 		}
-		planDesc = append(planDesc, fmt.Sprintf("%s: family=%s pad=%d prefix=%v levels=%s restart=%v", p.Name, p.Fam.Name, p.Pad, p.Prefix, strings.Join(ls, "x"), p.Restart))
+		planDesc = append(planDesc, fmt.Sprintf("%s: family=%s pad=%d prefix=%v levels=%s restart=%v graph=%v", p.Name, p.Fam.Name, p.Pad, p.Prefix, strings.Join(ls, "x"), p.Restart, p.Dedup))
 	}
 	na := map[string]int{}
 	for k, v := range st.notAppl {
@@ -653,6 +769,20 @@ func finish(r *vk.Run, st *stats, histories int, ps []plan) {
 		"pair_ops":                      "v1 t v2 u r2 x2 | d w z (ordered pairs of distinct ops of account 2 in one block; quick uses the first 6)",
 		"invariants":                    []string{"neo-supply", "neo-sum", "gas-sum", "candidate-votes", "voters-count", "notary-deposits", "negative", "delta-events", "restart-differs (restart plans)"},
 		"alphabet_restart":              alphaRestart,
+		"per_plan":                      st.perPlan,
+		"atom_transition_classes":       st.classes,
+		"atom_transition_classes_n":     len(st.classes),
+		"atom_effects":                  st.effects,
+		"atoms_drop":                    atomsDrop,
+		"atoms_two":                     atomsTwo,
+		"atoms_contract":                atomsContract,
+		"atoms_pair_block":              atomsPair,
+		"atoms_gas":                     atomsGas,
+		"atoms_notary":                  atomsNot,
+		"atoms_notary_pair_block":       atomsNotPair,
+		"alphabet_oracle":               alphaOracle,
+		"atoms_multi":                   atomsMulti,
+		"atoms_doc":                     "v<a>><c> vote (0 = revoke), r/x<c> (un)register, T/P/M/t<a>><b> NEO transfer of the whole balance / +1 / -1 / 1, UB = contract with payment callback (!back/!vote1/!fwd3 = re-entrant callback), B/U = block/unblock, c = claim, g* = GAS whole-balance and exact-fee atoms, n* = notary deposit boundary atoms; a2:X+Y = both in one block",
 		"rule":                          "state = decoded (NEO balances+VoteTo, GAS balances, candidates, votersCount, deposits, supplies) at a block boundary; every boundary of every history (genesis, preamble, each tree node) is decoded from raw storage, cross-checked with the getters and evaluated",
 	}
 	if len(st.byInv) > 0 {
@@ -663,6 +793,7 @@ func finish(r *vk.Run, st *stats, histories int, ps []plan) {
 		"the decoded storage is cross-checked at every boundary with GetGoverningTokenBalance, GetUtilityTokenBalance (incl. the Notary deposit form), GetNotaryDepositExpiration, GetEnrollments and a test invocation of NEO/GAS totalSupply, GAS.balanceOf(Notary), NEO.getCandidateVote; a disagreement aborts with exit 3 instead of reporting a violation",
 		"Transfer events: native NEO/GAS events of the OnPersist/PostPersist executions and of HALTed Application executions; FAULTed executions contribute none",
 		"a history is not extended past its first violation; a violating preamble suppresses its tree",
+		"graph plans (graph=true): breadth first; a history is extended only if it is the first to reach its governance state (NEO balances+votes, candidates, voters count, deposits+tills, blocked accounts), so every atom is applied once in every distinct governance state within the depth; GAS amounts, balance heights and reward counters are not part of that identity (the plain tree plans atoms/drop3, atoms/gas, atoms/notary cover history dependence at depth 3)",
 		"templates whose block the node rejects in a state (sender blocked or out of GAS, no deposit) are not part of the history space there; they are counted in template_not_applicable",
 	})
 }
